@@ -481,6 +481,10 @@ inductive Op
   | restore (ids : List String)
   | importA (ids : List String)
   | dump
+  /-- the self-contained many-keys scenario: n float `cpu` series + four later-sorting
+      measurements with an integer / string / boolean / float field, one batch, snapshot,
+      full backup, restore (or import) into an empty shard -/
+  | bigcase (n : Nat) (imp : Bool)
 deriving Repr
 
 inductive Obs
@@ -494,6 +498,9 @@ inductive Obs
   /-- answer of restore / import: file names of the target, its dump -/
   | target (files : List FName) (d : Dump)
   | dumped (d : Dump)
+  /-- what the source and the restored shard of `bigcase` read (points of the late keys
+      through the cursor their field schema selects, readable cpu series, field schema) -/
+  | big (src dst : String)
 deriving Repr, DecidableEq
 
 inductive ArchKind | backup | export
@@ -518,6 +525,11 @@ def lookupAll (st : State) : List String → Option (List (ArchKind × Archive))
     match st.archive? id, lookupAll st rest with
     | some a, some more => some (a :: more)
     | _, _ => none
+
+/-- what a shard holding the `bigcase` data reads -/
+def bigObs (n : Nat) : String :=
+  s!"cpu={n}/{n};mem.used=i:10=42;net.name=s:10=65746830;sys.up=b:10=1;zzz.v=f:10=1.5;" ++
+  "schema=cpu.value:float,mem.used:integer,net.name:string,sys.up:boolean,zzz.v:float"
 
 def step (st : State) : Op → State × Obs
   | .write k t0 step n v0 =>
@@ -557,6 +569,11 @@ def step (st : State) : Op → State × Obs
       let t := as.foldl (fun t a => t.importA a.2) Shard.empty
       (st, .target (targetNames t.files) t.dump)
   | .dump => (st, .dumped st.src.dump)
+  | .bigcase n _ =>
+    if n = 0 || n > 50000 then (st, .badOp) else
+    -- Engine.overlay registers every key of the restored files with its own block type,
+    -- batch after batch: the restored shard reads what the source reads
+    (st, .big (bigObs n) (bigObs n))
 
 /-- trace of the model on a list of operations -/
 def run : State → List Op → List (Op × Obs)
